@@ -52,7 +52,7 @@ try:
         lines = [l.strip() for l in o.splitlines() if l.strip().startswith(("violated", "UNDECIDED", "VACUOUS", "CHECK-ERROR"))]
         verdicts[p] = {"exit": rc, "reports": lines[:6]}
 finally:
-    sh("git checkout -- .", "/repo")
+    sh("git checkout -- . && git clean -fdq", "/repo")
     # evidence files were rewritten by the runs against the mutated tree: restore them
     sh("git checkout -- evidence", "/verif")
 res["checks"] = verdicts
